@@ -601,7 +601,9 @@ impl Xot {
         if !self.is_element(node) {
             return Err(Error::NotElement(node));
         };
-        let mut fullname_serializer = FullnameSerializer::new(self, vec![]);
+        // the xml prefix is always bound: attributes such as xml:space never need a generated prefix
+        let mut fullname_serializer =
+            FullnameSerializer::new(self, self.base_prefixes().into_iter().collect());
         // the missing namespaces in the order they are met, without repeats
         let mut missing_namespace_ids = Vec::new();
         for edge in self.traverse(node) {
